@@ -605,6 +605,13 @@ func checkC09Reader(c *ctx, n int, budget time.Duration) {
 		res.note("reader: %d sequential outcomes differ from the sequential fault model", res.NDisagreements-before)
 	}
 	res.TracesValidated += len(impl)
+
+	// histories of Read/ReadByte/Seek under faults vs the operational model (c09_reader_model.go)
+	nh := 400
+	if c.thorough() {
+		nh = 6000
+	}
+	checkC09ReaderModel(c, nh)
 }
 
 // libSummary lists, for every goroutine with bgzf frames, its state and its innermost bgzf frame with line.
